@@ -192,10 +192,6 @@ theorem lvOf_K {p : Props} (hK : p.K = true) : lvOf p = 2 := by simp [lvOf, hK]
 theorem lvOf_W {p : Props} (h : p.basicCount = 1) (hW : p.W = true) : lvOf p = 1 := by
   have := ((basic_excl p h).2.2.2 hW).2.2; simp [lvOf, this, hW]
 
-/-- the signatures a spender offers are no longer than the context's largest. -/
-def SigsSmall (ctx : Ctx) (env : SatEnv) : Prop :=
-  ∀ k σ, offered ctx env k = some σ → σ.length ≤ sigSize ctx
-
 section
 variable (ctx : Ctx) (env : SatEnv)
 
@@ -292,11 +288,11 @@ theorem bd_hash (h : HashKind) (d : Bytes) : BdN ctx env (.hash h d) := by
   · simp only [inputs]
     exact Bd_unclean _ _ _ (by simp [zero32Push, Input.clean]) (by intro w hw; simp [zero32Push] at hw ⊢; subst hw; simp)
 
-theorem bd_wrap (w : Wrap) (x : Ms) (hw : w = .c ∨ w = .v ∨ w = .a ∨ w = .n ∨ w = .s ∨ w = .d)
+theorem bd_wrap (w : Wrap) (x : Ms) (hw : w = .c ∨ w = .v ∨ w = .a ∨ w = .n ∨ w = .s ∨ w = .d ∨ w = .j)
     (ht : Typed ctx (.wrap w x)) (hx : Typed ctx x) (ih : BdN ctx env x) :
     BdN ctx env (.wrap w x) := by
   unfold BdN at *
-  rcases hw with rfl | rfl | rfl | rfl | rfl | rfl
+  rcases hw with rfl | rfl | rfl | rfl | rfl | rfl | rfl
   · obtain ⟨hK, hB, _⟩ := ty_c ctx x ht
     rw [lvOf_K hK] at ih; rw [lvOf_B ht hB]
     constructor
@@ -342,6 +338,14 @@ theorem bd_wrap (w : Wrap) (x : Ms) (hw : w = .c ∨ w = .v ∨ w = .a ∨ w = .
     · simp only [inputs, wrapperInput]
       exact Bd_intro [[]] rfl (by simp [zeroPush, element])
         ⟨⟨1, by simp [info], by simp⟩, ⟨_, rfl, by simp [info, concatT, tPUSH, tIF]⟩⟩
+  · obtain ⟨hB, _, tB, _⟩ := ty_j ctx x ht
+    rw [lvOf_B hx hB] at ih; rw [lvOf_B ht tB]
+    constructor
+    · refine Bd_map ih.1 (fun b hb => ⟨b, by simpa [info] using hb, Nat.le_refl _⟩) ?_
+      intro t h; simp [info, h, concatT, tPUSH, tNOP, tIF]
+    · simp only [inputs, wrapperInput]
+      exact Bd_intro [[]] rfl (by simp [zeroPush, element])
+        ⟨⟨1, by simp [info], by simp⟩, ⟨_, rfl, by simp [info, concatT, tPUSH, tNOP, tIF]⟩⟩
 
 theorem Bd_one : Bd onePush (some 2) (some ⟨0, 0⟩) 1 :=
   Bd_intro [[1]] rfl (by simp [onePush, element]) ⟨⟨2, rfl, by simp⟩, ⟨⟨0, 0⟩, rfl, by simp⟩⟩
@@ -589,7 +593,7 @@ theorem bd_s1 (hS : SigsSmall ctx env) : ∀ (n : Ms), s1Typed ctx n = true → 
     simp only [s1Typed, Bool.and_eq_true, Bool.or_eq_true, beq_iff_eq, decide_eq_true_eq] at h
     simp only [shaped] at hs
     refine bd_wrap ctx env w x ?_ ht (typed_of_s1Typed ctx x h.2) (bd_s1 hS x h.2 hs)
-    rcases h.1.1 with ((((h | h) | h) | h) | h) | h <;> simp [h]
+    rcases h.1.1 with (((((h | h) | h) | h) | h) | h) | h <;> simp [h]
   | .bin b x y, h, hs => by
     have ht := typed_of_s1Typed ctx _ h
     simp only [s1Typed, Bool.and_eq_true, Bool.or_eq_true, beq_iff_eq, decide_eq_true_eq] at h
